@@ -185,6 +185,16 @@ def main():
         f.write("\n]\n\n")
         f.write("def extractionProblems : List String := [%s]\n\n" % ", ".join('"%s"' % p.replace('"', "'") for p in problems))
         f.write("end PetgraphModel.Extracted\n")
+    # Csr.lean — the binary-search cut-off of Csr::find_edge_pos
+    csr = open(os.path.join(REPO, "src", "csr.rs")).read()
+    m = re.search(r"const\s+BINARY_SEARCH_CUTOFF\s*:\s*usize\s*=\s*(\d+)\s*;", csr)
+    if not m:
+        problems.append("csr.rs: BINARY_SEARCH_CUTOFF not recognised")
+    with open(os.path.join(OUT, "Csr.lean"), "w") as f:
+        f.write("/- GENERATED by tools/extract.py from %s/src/csr.rs on every run — do not edit.\n" % REPO)
+        f.write("   `const BINARY_SEARCH_CUTOFF: usize`.  No C05 theorem depends on the value (`C05_find_pos` proves both\n")
+        f.write("   search branches equal on every strictly ascending slice); the driver uses it to run the same branch as the code. -/\n")
+        f.write("namespace PetgraphModel.Extracted.Csr\n\ndef cutoff : Nat := %s\n\nend PetgraphModel.Extracted.Csr\n" % (m.group(1) if m else "0"))
     print("extract: %d functions scanned, %d scratch uses, %d problems" % (nfuncs, len(rows), len(problems)))
     for p in problems:
         print("  PROBLEM:", p)
